@@ -2,7 +2,7 @@ from dataclasses import dataclass
 
 from mypy.nodes import ComparisonExpr, ListExpr, SetExpr, TupleExpr
 
-from refurb.checks.common import stringify
+from refurb.checks.common import stringify, stringify_operand
 from refurb.error import Error
 
 
@@ -39,7 +39,8 @@ def check(node: ComparisonExpr, errors: list[Error]) -> None:
         ) if len(expr.items) == 1:
             new_oper = "==" if oper == "in" else "!="
 
-            new = f"{stringify(lhs)} {new_oper} {stringify(expr.items[0])}"
+            item = stringify_operand(expr.items[0], new_oper)
+            new = f"{stringify_operand(lhs, new_oper)} {new_oper} {item}"
 
             msg = f"Replace `{stringify(node)}` with `{new}`"
 
